@@ -141,7 +141,7 @@ Lemma lic_canon_is_teq w l : lic_canon lics w = Some l -> teq w l.
 Proof.
   unfold lic_canon, teq, is_ref. pose proof (strip_plus_app w) as E. destruct (strip_plus w) as [core plus]. cbn [fst].
   destruct (prefixb licenseref_lc (afold core)) eqn:P.
-  - destruct (forallb ref_char core) eqn:R; [|discriminate].
+  - destruct (forallb ref_char core) eqn:R; [|discriminate]. destruct (nonemptyb (skipn 11 core)); [|discriminate]. cbn [andb].
     pose proof (prefix_length _ _ P) as L. unfold afold in L. rewrite map_length in L.
     assert (SK : skipn 11 (licenseref_prefix ++ skipn 11 core ++ plus) = skipn 11 core ++ plus) by reflexivity.
     assert (AF : afold (licenseref_prefix ++ skipn 11 core ++ plus) = afold core ++ afold plus).
@@ -191,7 +191,7 @@ Proof.
     + unfold lic_canon in X. pose proof (strip_plus_cases w) as Pl. destruct (strip_plus w) as [core plus]. cbn [snd] in Pl.
       assert (PA : forallb asciib plus = true) by (destruct Pl as [-> | ->]; reflexivity).
       destruct (prefixb licenseref_lc (afold core)).
-      * destruct (forallb ref_char core) eqn:R; [|discriminate].
+      * destruct (forallb ref_char core) eqn:R; [|discriminate]. destruct (nonemptyb (skipn 11 core)); [|discriminate]. cbn [andb] in X.
         assert (SK : forallb asciib (skipn 11 core) = true).
         { apply forallb_skipn. rewrite forallb_forall in *. intros c Hc. apply ref_char_ascii. auto. }
         injection X as <-. change (forallb asciib (licenseref_prefix ++ (skipn 11 core ++ plus)) = true).
